@@ -158,6 +158,9 @@ def _parse_block(name, blk):
     for fm in re.finditer(r"^Failed Checks: (.*)$", blk, re.M):
         r.failed_checks.append(fm.group(1).strip().strip('"'))
     r.unwind_failed = any("unwinding assertion" in c for c in r.failed_checks)
+    if r.status == "FAILED" and not r.failed_checks:
+        r.error = "FAILED without any failed check (solver crashed or ran out of memory in a later pass)"
+        r.status = None
     if re.search(r"CBMC failed|Status: ERROR|out of memory|std::bad_alloc|Killed|timed out|CBMC timed out|"
                  r"unsupported_construct|is not currently supported by Kani", blk):
         r.error = "solver error / resource limit / unsupported construct"
@@ -255,7 +258,7 @@ def concrete_values(cwd, harnesses, gen_dir, out_dir, *, package=None, extra=(),
     """Ask Kani for the counterexamples of failing harnesses as the list of byte vectors their
     kani::any() calls returned (--concrete-playback=print).  Returns {full_name: vals or None}."""
     cmd = ["cargo", "kani", "--target-dir", target_dir, "-Z", "stubbing", "-Z", "concrete-playback",
-           "--concrete-playback=print", "--exact", "-j", str(jobs), "--output-format", "terse"]
+           "--concrete-playback=print", "--exact", "--output-format", "terse"]  # (-j is rejected with playback)
     if package:
         cmd += ["-p", package]
     cmd += list(extra)
